@@ -80,7 +80,9 @@ CheckObs(S, id, o) ==
              /\ (o.r.s = "ok" =>
                    /\ Say(o.r.v.lines = FormatLines(S, a.start, a.self), id, "C16", "format.lines:" \o a.style, why)
                    /\ Say(o.r.v.title = a.title, id, "C16", "format.title:" \o a.style, why)
-                   /\ Say(a.list \/ o.r.v.prefix = ex, id, "C16", "format.prefix:" \o a.style, why)
+                   /\ Say(a.list \/ a.lenonly \/ o.r.v.prefix = ex, id, "C16", "format.prefix:" \o a.style, why)
+                   /\ Say(~a.lenonly \/ [i \in 1..Len(o.r.v.prefix) |-> Len(o.r.v.prefix[i])] = [i \in 1..Len(ex) |-> Len(ex[i])],
+                          id, "C16", "format.prefix_length:" \o a.style, why)
                    /\ Say(~a.list \/ \A i \in 1..Len(o.r.v.prefix) : o.r.v.prefix[i] = <<>>, id, "C16",
                           "format.list_has_prefix", why))
 
